@@ -225,7 +225,9 @@ def s3_minimise(h, perm, idx, expected_dg, repo, budget=12):
 class Found:
     """Collects violations; distinct by signature."""
 
-    def __init__(self, limit=3):
+    def __init__(self, limit=None):
+        # (VERIF_MAX_VIOLATIONS=1: stop exploring at the first deviation; used by the sensitivity self-test, where only the verdict counts)
+        limit = limit or int(os.environ.get('VERIF_MAX_VIOLATIONS', '3') or 3)
         self.items = []
         self.sigs = set()
         self.limit = limit
